@@ -157,6 +157,23 @@ FUNCS = {'str': str, 'int': int, 'float': float, 'len': len, 'tuple': tuple, 'li
          'sorted': sorted, 'any': any, 'all': all, 'range': range, 'zip': lambda *a: list(zip(*a)), 'enumerate': lambda x, start=0: LiveEnum(x, start) if isinstance(x, list) else list(enumerate(x, start)),
          'map': lambda f, *a: [f(*x) for x in zip(*a)], 'reversed': lambda x: list(reversed(x)), 'set': set, 'frozenset': frozenset, 'dict': dict,
          'isinstance': None}
+
+
+def _next(x, *d):
+    """next(<generator expression>, default): generator expressions are evaluated to lists, so only a fresh one can be asked for its first element"""
+    if not isinstance(x, list):
+        raise Unfoldable('next of %r' % (x,))
+    if x:
+        return x[0]
+    if d:
+        return d[0]
+    raise Raised('StopIteration', None)
+
+
+FUNCS['next'] = _next
+FUNCS['divmod'] = divmod
+FUNCS['round'] = round
+FUNCS['sum'] = sum
 STR_METHODS = {'split', 'join', 'format', 'strip', 'lstrip', 'rstrip', 'startswith', 'endswith', 'lower', 'upper', 'capitalize', 'partition', 'rpartition', 'replace', 'zfill'}
 
 
@@ -588,6 +605,16 @@ class Folder:
                 return abstract_format(recv, args, kw)
             if isinstance(recv, str) and m in STR_METHODS:
                 return getattr(recv, m)(*args, **kw)
+            if isinstance(recv, (bytes, bytearray)) and m in ('decode', 'hex') and all(isinstance(a_, str) for a_ in list(args) + list(kw.values())):
+                try:
+                    return getattr(bytes(recv), m)(*args, **kw)
+                except UnicodeDecodeError:
+                    raise Raised('UnicodeDecodeError', e)
+            if isinstance(recv, str) and m == 'encode' and all(isinstance(a_, str) for a_ in list(args) + list(kw.values())):
+                try:
+                    return recv.encode(*args, **kw)
+                except UnicodeEncodeError:
+                    raise Raised('UnicodeEncodeError', e)
             if isinstance(recv, dict) and m in ('get', 'keys', 'values', 'items'):
                 try:
                     r = getattr(recv, m)(*args)
@@ -930,7 +957,18 @@ class AbsStr:
     def m_lstrip(self, chars=None):
         if self.origin and self.origin[0] == 'bin' and chars in ('0b', 'b0'):
             return AbsStr(self.origin[1])        # bin(n).lstrip('0b'): the binary digits ('' for 0)
-        raise Unfoldable('lstrip of an abstract string')
+        return self._inexact()
+
+    def _inexact(self):
+        r = self._mk(self.n)
+        r.exact = False
+        return r
+
+    def m_strip(self, *a):
+        return self._inexact()        # at most n characters remain
+
+    def m_rstrip(self, *a):
+        return self._inexact()
 
     def m_zfill(self, w):
         return self._mk(max(self.n, w))
@@ -942,11 +980,22 @@ class AbsStr:
         return '%s[%d]' % (type(self).__name__, self.n)
 
 
+SINGLE_BYTE_CODECS = ('ascii', 'us-ascii', 'latin-1', 'latin1', 'iso-8859-1', 'iso8859-1', 'cp1252')
+
+
 class AbsBytes(AbsStr):
     kind = 'bytes'
 
     def m_hex(self):
         return AbsStr(2 * self.n)
+
+    def m_decode(self, *a, **kw):
+        r = AbsStr(self.n)
+        enc = (a[0] if a else kw.get('encoding', 'utf-8'))
+        # one character per byte for a single-byte codec, and for at most one byte under any codec (or it raises); otherwise several
+        # bytes can make one character and only an upper bound on the length is known
+        r.exact = self.exact and (self.n <= 1 or (isinstance(enc, str) and enc.lower().replace('_', '-') in SINGLE_BYTE_CODECS))
+        return r
 
 
 class WinBytes:
@@ -1057,13 +1106,29 @@ def length_models():
         return AbsBytes(2 * len(x))
 
     def m_bytes(x=b'', *a):
+        if isinstance(x, (bytes, bytearray)) and not a:
+            return bytes(x)
         if isinstance(x, AbsStr):
             return AbsBytes(len(x))
         if isinstance(x, int):
             return AbsBytes(x)
         return AbsBytes(len(bytes(x)))
 
-    return {'bin': m_bin, 'struct.pack': m_pack, 'pack': m_pack, 'binascii.unhexlify': m_unhex, 'unhexlify': m_unhex,
+    def m_unpack(f, data):
+        if isinstance(data, (bytes, bytearray)):
+            try:
+                return _struct.unpack(f, data)
+            except _struct.error:
+                raise Raised('struct.error', None)
+        # character / pad formats keep the bytes abstract; numbers become unknown numbers
+        out = []
+        for ch in f.lstrip('!<>=@'):
+            out.append(AbsBytes(1) if ch in 'cs' else AbsNum())
+        if _struct.calcsize(f) != len(data):
+            raise Raised('struct.error', None)
+        return tuple(out)
+
+    return {'struct.unpack': m_unpack, 'unpack': m_unpack, 'bin': m_bin, 'struct.pack': m_pack, 'pack': m_pack, 'binascii.unhexlify': m_unhex, 'unhexlify': m_unhex,
             'binascii.hexlify': m_hexlify, 'hexlify': m_hexlify, 'bytes': m_bytes, 'bytearray': m_bytes, 'int': m_int,
             'bytes.fromhex': m_unhex, 'bytearray.fromhex': m_unhex}
 
